@@ -28,4 +28,11 @@ Theorem C16_descriptors_erase_on_drop :
   forallb (fun n => ty_ok 8 (TNamed n)) ["PrivateKey"; "PublicKey"; "R"; "T"] = true /\ key_aliases_are_types_K_L = true.
 Proof. split; vm_compute; reflexivity. Qed.
 
+(* nothing in the crate keeps a destructor from running: no ManuallyDrop, mem::forget, Box::leak, ptr::write, MaybeUninit and no
+   hand-written Drop impl (T5 lists every occurrence in src/, the add-only hooks file aside) - so every way a key's life can end,
+   including being consumed by `into_bytes(self)`, goes through the derived ZeroizeOnDrop *)
+Theorem C16_no_drop_suppression : drop_suppression_sites = [].
+Proof. reflexivity. Qed.
+
 Print Assumptions C16_descriptors_erase_on_drop.
+Print Assumptions C16_no_drop_suppression.
